@@ -1,6 +1,6 @@
 (* C34 proofs, part 4: the predicates evaluated by the comparer (Corr/C34.v) are the ones the
-   theorems speak about: a case on which the implementation behaved as the model predicts and
-   that lies in no recorded class satisfies the property's oracle. *)
+   theorems speak about: a case on which the implementation behaved as the model predicts
+   satisfies the property's oracle. *)
 From Coq Require Import ZArith List Bool Lia.
 From TV Require Import Lib.MachInt Model.Freelist Proof.Freelist Proof.FreelistInv Proof.FreelistTrace Corr.C34.
 Import ListNotations.
@@ -15,7 +15,7 @@ Proof.
 Qed.
 Lemma out_eqb_eq : forall a b, out_eqb a b = true -> a = b.
 Proof.
-  intros [|p| | | |] [|q| | | |] H; cbn in H; try discriminate; try reflexivity.
+  intros [|p| | |] [|q| | |] H; cbn in H; try discriminate; try reflexivity.
   apply Z.eqb_eq in H. congruence.
 Qed.
 Lemma tr_eqb_eq : forall a b, tr_eqb a b = true -> a = b.
@@ -27,9 +27,9 @@ Proof.
   apply op_eqb_eq in Ho. apply out_eqb_eq in Hr. apply Z.eqb_eq in Hh, Hc. congruence.
 Qed.
 
-Theorem agreeing_case_outside_known_classes_l : forall np ctr, np < 2 ^ 32 ->
-  model_agrees (Case np ctr) = true -> known_class (Case np ctr) = 0 -> spec_ok (Case np ctr) = true.
+Theorem agreeing_case_satisfies_property_l : forall np ctr, np < 2 ^ 32 ->
+  model_agrees (Case np ctr) = true -> spec_ok (Case np ctr) = true.
 Proof.
-  intros np ctr Hnp Hm Hk. cbn [model_agrees known_class spec_ok] in *.
-  apply tr_eqb_eq in Hm. rewrite <- Hm in *. apply known_classes_cover_l; assumption.
+  intros np ctr Hnp Hm. cbn [model_agrees spec_ok] in *.
+  apply tr_eqb_eq in Hm. rewrite <- Hm. apply property_holds_l; assumption.
 Qed.
